@@ -144,7 +144,10 @@ class RawWrapper(io.RawIOBase):
 
     def __iter__(self):
         # type: () -> Iterator[bytes]
-        return iter(self._f)
+        # NB: iterate the wrapper itself (`io.IOBase.__next__` reads lines through
+        # `readline`): an iterator over the wrapped file would not keep the wrapper
+        # alive, and the wrapper closes the wrapped file when it is collected.
+        return self
 
 
 @typing.no_type_check
